@@ -6,7 +6,7 @@ use std::fs::create_dir_all;
 use std::sync::Arc;
 use std::thread;
 use std::thread::JoinHandle;
-use std::time::{Duration, UNIX_EPOCH};
+use std::time::{Duration, SystemTime, UNIX_EPOCH};
 
 use serde::{Deserialize, Serialize};
 
@@ -39,6 +39,15 @@ struct CachedFileInfo {
 type InnerCache = typed_sled::Tree<Key, CachedFileInfo>;
 
 const FLUSH_INTERVAL: Duration = Duration::from_millis(1000);
+
+/// Converts a modification time to milliseconds since the epoch.
+/// Times before the epoch count backwards from `u64::MAX`, so that two different ones stay different.
+fn timestamp_ms(time: SystemTime) -> u64 {
+    match time.duration_since(UNIX_EPOCH) {
+        Ok(since) => since.as_millis() as u64,
+        Err(before) => u64::MAX - before.duration().as_millis() as u64,
+    }
+}
 
 /// Caches file hashes to avoid repeated computations in subsequent runs of fclones.
 ///
@@ -97,12 +106,10 @@ impl HashCache {
         hash: FileHash,
     ) -> Result<(), Error> {
         let value = CachedFileInfo {
-            modified_timestamp_ms: file
-                .modified()
-                .map_err(|e| format!("Unable to get file modification timestamp: {e}"))?
-                .duration_since(UNIX_EPOCH)
-                .unwrap_or(Duration::ZERO)
-                .as_millis() as u64,
+            modified_timestamp_ms: timestamp_ms(
+                file.modified()
+                    .map_err(|e| format!("Unable to get file modification timestamp: {e}"))?,
+            ),
             file_len: file.len(),
             data_len,
             hash,
@@ -138,12 +145,11 @@ impl HashCache {
             None => return Ok(None), // not found in cache
         };
 
-        let modified = metadata
-            .modified()
-            .map_err(|e| format!("Unable to get file modification timestamp: {e}"))?
-            .duration_since(UNIX_EPOCH)
-            .unwrap_or(Duration::ZERO)
-            .as_millis() as u64;
+        let modified = timestamp_ms(
+            metadata
+                .modified()
+                .map_err(|e| format!("Unable to get file modification timestamp: {e}"))?,
+        );
 
         if value.modified_timestamp_ms != modified || value.file_len != metadata.len() {
             Ok(None) // found in cache, but the file has changed since it was cached
